@@ -493,10 +493,12 @@ def make_c08_judge():
         ctx.count("c08_judged")
         w = witness(obs)
         best = None
+        nplain = [0]
         for lay in layouts:
             problems = []
             N = lay["N"]
             expected = {}
+            tolerated = set()
             nsurv = ndrop = 0
             for ri, r in enumerate(recs):
                 n_r = len(r)
@@ -505,11 +507,29 @@ def make_c08_judge():
                     if u is None or f.location is None:
                         continue
                     d = denote(f.location, n_r)
-                    inside = all((ri, p) in lay["posmap"] for p, _ in d)
+                    mapped, inside, edge = [], True, False
+                    for p, st in d:
+                        if isinstance(p, tuple):
+                            # between-base site before position g: inside when both flanking nucleotides are retained and
+                            # stay adjacent; on the very edge of the fragment either outcome is tolerated
+                            g = p[1]
+                            left, right = lay["posmap"].get((ri, (g - 1) % n_r)), lay["posmap"].get((ri, g % n_r))
+                            if left is not None and right is not None and (left + 1) % N == right:
+                                mapped.append((("gap", right % N), st))
+                            elif left is None and right is None:
+                                inside = False
+                            else:
+                                edge = True
+                        elif (ri, p) in lay["posmap"]:
+                            mapped.append((lay["posmap"][(ri, p)], st))
+                        else:
+                            inside = False
                     shape = ("compound" if len(f.location.parts) > 1 else "simple") + ("/past-end" if any(int(p.end) > n_r for p in f.location.parts) else "")
-                    if inside:
+                    if edge and inside:
+                        tolerated.add(u)
+                    elif inside:
                         nsurv += 1
-                        expected[u] = ([(lay["posmap"][(ri, p)], st) for p, st in d], f, shape)
+                        expected[u] = (mapped, f, shape)
                     else:
                         ndrop += 1
             for u, (d, f0, shape) in expected.items():
@@ -527,15 +547,50 @@ def make_c08_judge():
                 if g.type != f0.type or _plain_quals(g) != _plain_quals(f0):
                     problems.append(("feature-metadata-changed", "feature %s: type/qualifiers %r -> %r" % (u, (f0.type, _plain_quals(f0)), (g.type, _plain_quals(g)))))
             for u, g in got.items():
-                if u not in expected:
+                if u not in expected and u not in tolerated:
                     problems.append(("feature-not-an-image", "product feature %s at %s is not the image of an input feature lying inside a retained fragment (a feature overlapping a discarded region must be dropped, not truncated or shifted)" % (u, g.location)))
             for u in dup:
                 problems.append(("feature-duplicated", "feature %s appears twice in the product" % u))
+            # input features that carry no uid (e.g. the provenance features a product inherited from earlier levels):
+            # matched by type + qualifiers + mapped denotation; the provenance features generated by *this* call
+            # (one per segment, naming that input) are set aside first
+            ids = ids_of(obs)
+            prod_plain = [g for g in obs.product.features if _uid(g) is None and g.location is not None]
+            seg_spans = {}
+            for ri, start, ln, off in lay["segments"]:
+                seg_spans[(ids[ri], off % N, ln)] = seg_spans.get((ids[ri], off % N, ln), 0) + 1
+            remaining = []
+            for g in prod_plain:
+                pl = (g.qualifiers or {}).get("plasmid")
+                pl = pl[0] if isinstance(pl, (list, tuple)) else pl
+                key = (pl, int(g.location.start) % N, len(g.location)) if g.type == "source" and len(g.location.parts) == 1 else None
+                if key in seg_spans and seg_spans[key] > 0:
+                    seg_spans[key] -= 1
+                    continue
+                remaining.append(g)
+            for ri, r in enumerate(recs):
+                n_r = len(r)
+                for f in r.features:
+                    if _uid(f) is not None or f.location is None:
+                        continue
+                    d = denote(f.location, n_r)
+                    if not d or any(isinstance(p, tuple) for p, _ in d) or not all((ri, p) in lay["posmap"] for p, _ in d):
+                        continue
+                    want = [(lay["posmap"][(ri, p)], st) for p, st in d]
+                    hit = next((g for g in remaining if g.type == f.type and _plain_quals(g) == _plain_quals(f)
+                                and same_denotation(want, denote(g.location, N), N, stranded=True)), None)
+                    nplain[0] += 1
+                    if hit is None:
+                        problems.append(("feature-lost:no-uid", "input %s carries a %s feature at %s (%s) inside its retained fragment; the product has no feature with that type, qualifiers and nucleotides" % (
+                            ids[ri], f.type, f.location, {k: v for k, v in _plain_quals(f).items() if k in ("label", "plasmid")})))
+                    else:
+                        remaining.remove(hit)
             if best is None or len(problems) < len(best[0]):
                 best = (problems, nsurv, ndrop)
             if not problems:
                 break
         problems, nsurv, ndrop = best
+        ctx.count("c08_unlabelled_features_matched", nplain[0])
         ctx.count("c08_features_expected_to_survive", nsurv)
         ctx.count("c08_features_expected_dropped", ndrop)
         if nsurv and ndrop:
